@@ -21,7 +21,7 @@ package car
 //@   ensures chars [C05]: result.Characteristics.Hi == h.Characteristics.Hi && result.Characteristics.Lo == h.Characteristics.Lo
 
 //@ func (Header).HasIndex
-//@   ensures def [C05,C07]: result == (h.IndexOffset != 0)
+//@   ensures def [C05,C07,C13]: result == (h.IndexOffset != 0)
 
 //@ func (Characteristics).WriteTo
 //@   call[Writer.Write#0] assert only_after_both_words_are_in_place [C05]: executed("littleEndian.PutUint64#0") && executed("littleEndian.PutUint64#1")
@@ -99,7 +99,7 @@ package car
 //@   ensures wellformed_header_is_accepted [C05,C07]: cerr == nil && rerr == nil && 51 <= wrap_s64(d0) && 0 < wrap_s64(d1) && 0 <= wrap_s64(d2) ==> err == nil
 //@   modifies pos(r), h.Characteristics.Hi, h.Characteristics.Lo, h.DataOffset, h.DataSize, h.IndexOffset
 //@   ensures count [C05,C09]: pos(r) == old(pos(r)) + result0 && 0 <= result0 && result0 <= 40
-//@   ensures full [C05]: err == nil ==> result0 == 40
+//@   ensures full [C05,C14]: err == nil ==> result0 == 40
 //@   ensures ranges [C09]: err == nil ==> 51 <= h.DataOffset && h.DataOffset < 9223372036854775808 && 0 < h.DataSize && h.DataSize < 9223372036854775808 && h.IndexOffset < 9223372036854775808
 //@   ensures untouched_on_error [C06]: err != nil ==> h.DataOffset == old(h.DataOffset) && h.DataSize == old(h.DataSize) && h.IndexOffset == old(h.IndexOffset)
 
@@ -112,8 +112,8 @@ package car
 //@   call[fmt.Errorf#0] assert refuses_only_an_unknown_version [C09,C14]: hdr.Version != 1 && hdr.Version != 2
 //@   call[Seeker.Seek#0] assert skips_the_padding_to_the_payload [C14]: arg1 == wrap_s64(wrap_s64(wrap_s64(cur(v2h).DataOffset) - 11) - 40) && arg2 == 1
 //@   call[io.LimitReader#0] assert payload_window [C02,C14]: ref(arg0) == ref(r) && arg1 == wrap_s64(cur(v2h).DataSize)
-//@   call[carv1.ReadHeader#0] assert configured_header_limit [C09]: arg1 == options.MaxAllowedHeaderSize
-//@   call[carv1.ReadHeader#1] assert configured_header_limit [C09]: arg1 == options.MaxAllowedHeaderSize
+//@   call[carv1.ReadHeader#0] assert configured_header_limit [C09,C13]: arg1 == options.MaxAllowedHeaderSize
+//@   call[carv1.ReadHeader#1] assert configured_header_limit [C09,C13]: arg1 == options.MaxAllowedHeaderSize
 //@   requires origin [C14]: pos(r) == 0 && sbase(r) == 0
 //@   assume canonical_pragma: true
 //@   let hdr, herr := call[carv1.ReadHeader#0]
@@ -133,7 +133,7 @@ package car
 //@   let c, data, rerr := call[util.ReadNode#0]
 //@   ensures advance [C14]: err == nil ==> br.offset == old(br.offset) + vsize(bytelen(c) + len(data)) + bytelen(c) + len(data)
 //@   ensures inv_kept [C14]: err == nil ==> br.offset == pos(br.r)
-//@   ensures integrity [C02]: err == nil && !br.opts.TrustedCAR ==> hashok(blockcid(result0), blockdata(result0))
+//@   ensures integrity [C02,C13]: err == nil && !br.opts.TrustedCAR ==> hashok(blockcid(result0), blockdata(result0))
 //@   ensures same_values [C02]: err == nil ==> blockcid(result0) == ref(c) && blockdata(result0) == ref(data)
 //@   ensures eof_clean [C02]: err == io.EOF ==> pos(br.r) == old(pos(br.r)) || (br.opts.ZeroLengthSectionAsEOF && pos(br.r) == old(pos(br.r)) + 1)
 //@   let hashed, serr := call[Prefix.Sum#0]
@@ -179,7 +179,7 @@ package car
 //@ func LoadIndex
 //@   call[Seeker.Seek#0] assert the_inner_header_of_a_v2_is_version_1 [C03]: pragma.Version == 2 ==> v1herr == nil && v1h.Version == 1
 //@   check a_clean_end_loads_the_records [C03,C11]: executed("varint.ReadUvarint#0") && verr == io.EOF ==> executed("Index.Load#0")
-//@   check a_cid_at_the_limit_is_not_too_large [C03,C04]: executed("cid.CidFromReader#0") && cerr0 == nil && !executed("Seeker.Seek#2") ==> cidLen0 > o.MaxIndexCidSize && (o.StoreIdentityCIDs || mhtype(c0) != 0)
+//@   check a_cid_at_the_limit_is_not_too_large [C01,C03,C04,C07,C10]: executed("cid.CidFromReader#0") && cerr0 == nil && !executed("Seeker.Seek#2") ==> cidLen0 > o.MaxIndexCidSize && (o.StoreIdentityCIDs || mhtype(c0) != 0)
 //@   let v1h, v1herr := call[carv1.ReadHeader#1]
 //@   let _, v2herr := call[Header.ReadFrom#0]
 //@   let loaderr := call[Index.Load#0]
@@ -206,7 +206,7 @@ package car
 //@   requires origin [C03]: pos(r) == sbase(r)
 //@   assume stream_bound: true
 //@   let pragma, perr := call[carv1.ReadHeader#0]
-//@   loop[0] invariant offset [C03]: sectionOffset == pos(reader) - sbase(reader) - dataOffset
+//@   loop[0] invariant offset [C01,C03,C07,C10]: sectionOffset == pos(reader) - sbase(reader) - dataOffset
 //@   loop[0] invariant nonneg [C03]: dataOffset >= 0
 //@   loop[0] invariant reader_ok [C03]: objinv(reader)
 //@   loop[0] decreases lim(reader) - pos(reader)
@@ -216,7 +216,7 @@ package car
 //@   call[append#0] assert identity_filter [C03]: o.StoreIdentityCIDs || mhtype(c) != 0
 //@   call[append#0] assert cid_size [C03,C04]: cidLen <= o.MaxIndexCidSize
 //@   let sectionLen, verr := call[varint.ReadUvarint#0]
-//@   call[Index.Load#0] assert scan_complete [C03]: verr == io.EOF || (verr == nil && sectionLen == 0 && o.ZeroLengthSectionAsEOF) || (dataSize != 0 && wrap_s64(pos(reader) - sbase(reader)) - dataOffset >= dataSize)
+//@   call[Index.Load#0] assert scan_complete [C01,C03,C07,C10]: verr == io.EOF || (verr == nil && sectionLen == 0 && o.ZeroLengthSectionAsEOF) || (dataSize != 0 && wrap_s64(pos(reader) - sbase(reader)) - dataOffset >= dataSize)
 //@   call[Index.Load#0] assert args [C03]: ref(arg0) == ref(idx) && ref(arg1) == ref(records)
 
 //@ func ReplaceRootsInFile
@@ -317,10 +317,10 @@ package car
 //@   let cidLen, c, cerr := call[cid.CidFromReader#0]
 //@   let eq := call[Cid.Equals#0]
 //@   let mh, merr := call[multihash.SumStream#0]
-//@   call[io.ToByteReader#0] assert same_stream [C13]: ref(arg0) == ref(dr)
-//@   call[carv1.ReadHeader#0] assert same_stream [C13]: ref(arg0) == ref(dr) && arg1 == r.opts.MaxAllowedHeaderSize
-//@   call[cid.CidFromReader#0] assert same_stream [C13]: ref(arg0) == ref(dr)
-//@   call[multihash.SumStream#0] assert hashes_block_bytes [C02,C13]: cell(arg0) == cell(dr) && lim(arg0) == min(pos(dr) + (sectionLength - cidLen), lim(dr)) && arg1 == mhtype(c) && arg2 == ite(mhtype(c) == 0, -1, mhlen(c))
+//@   call[io.ToByteReader#0] assert same_stream [C09,C13]: ref(arg0) == ref(dr)
+//@   call[carv1.ReadHeader#0] assert same_stream [C09,C13]: ref(arg0) == ref(dr) && arg1 == r.opts.MaxAllowedHeaderSize
+//@   call[cid.CidFromReader#0] assert same_stream [C09,C13]: ref(arg0) == ref(dr)
+//@   call[multihash.SumStream#0] assert hashes_block_bytes [C02,C05,C13]: cell(arg0) == cell(dr) && lim(arg0) == min(pos(dr) + (sectionLength - cidLen), lim(dr)) && arg1 == mhtype(c) && arg2 == ite(mhtype(c) == 0, -1, mhlen(c))
 //@   call[Cid.Equals#0] assert compares_with_section_cid [C02,C13]: arg1 == c
 //@   call[Cid.Prefix#0] assert roots_scan_complete [C13]: rootsPresentCount >= len(cur(stats).Roots) || rangeindex + 1 >= len(cur(stats).Roots)
 //@   let codec_before := call[maplookup#0]
@@ -349,7 +349,7 @@ package car
 //@   modifies wn(w)
 //@   alloc[0] bounded_by tc.opts.DataPadding
 //@   call[Header.WriteTo#0] assert header [C05,C15]: arg0.DataSize == tc.size && arg0.DataOffset == wrap_u64(51 + tc.opts.DataPadding) && (tc.opts.IndexCodec == 3145728 ==> arg0.IndexOffset == 0)
-//@   ensures count [C15]: err == nil && wn(w) - old(wn(w)) < 4611686018427387904 && tc.opts.DataPadding < 4611686018427387904 ==> result0 == wn(w) - old(wn(w)) && result0 == 51 + tc.opts.DataPadding
+//@   ensures count [C10,C15]: err == nil && wn(w) - old(wn(w)) < 4611686018427387904 && tc.opts.DataPadding < 4611686018427387904 ==> result0 == wn(w) - old(wn(w)) && result0 == 51 + tc.opts.DataPadding
 //@   let _, e0 := call[Writer.Write#0]
 //@   let _, e1 := call[Header.WriteTo#0]
 //@   let _, e2 := call[Writer.Write#1]
